@@ -529,7 +529,7 @@ impl<'a> World<'a> {
                     };
                     // a few chunks, so that adapters see more than one item
                     let body = &bytes[..cut];
-                    let step = (body.len() / 3).max(1);
+                    let step = (body.len() / 3).clamp(1, 1024);
                     for c in body.chunks(step) {
                         chunks.push(Chunk::Data(c.to_vec()));
                     }
@@ -672,10 +672,10 @@ pub async fn run_cycle(
             let obs = json!({"res": "ok",
                 "versions": [repo.root().signed.version.get(), repo.timestamp().signed.version.get(),
                              repo.snapshot().signed.version.get(), repo.targets().signed.version.get()],
-                "roles": roles, "reqs": reqs, "ds": ds, "capped": mem.capped()});
+                "roles": roles, "reqs": reqs, "pulled": mem.pulled(), "ds": ds, "capped": mem.capped()});
             CycleObs { obs, repo: Some(repo) }
         }
-        Err(e) => CycleObs { obs: json!({"res": err_tag(&e), "reqs": reqs, "ds": ds, "capped": mem.capped()}), repo: None },
+        Err(e) => CycleObs { obs: json!({"res": err_tag(&e), "reqs": reqs, "pulled": mem.pulled(), "ds": ds, "capped": mem.capped()}), repo: None },
     }
 }
 
